@@ -22,12 +22,21 @@ EXTENDS HpoCats
 
 SubOk(par, root, leaves) == leaves # {} /\ \A lf \in leaves : lf \in DescSelf(par, root)
 
-(* every term set the call may retain *)
-SubTermSets(par, root, leaves) ==
+(* every term set the call may retain - the definition *)
+SubTermSetsDef(par, root, leaves) ==
   LET L == SetToSeq(leaves)
       PathChoices == [1..Len(L) -> UNION {ShortestUpPaths(par, lf, root) : lf \in leaves}]
   IN  { leaves \cup UNION {Range(ch[i]) : i \in 1..Len(L)} :
           ch \in {c \in PathChoices : \A i \in 1..Len(L) : c[i] \in ShortestUpPaths(par, L[i], root)} }
+
+(* the same set, built leaf by leaf (the definition above enumerates a function space that explodes with the number of  *)
+(* leaves; MC_Sub checks on every small case that the two agree)                                                        *)
+RECURSIVE SubTermSetsRec(_, _, _)
+SubTermSetsRec(par, root, L) ==
+  IF L = {} THEN {{}}
+  ELSE LET lf == CHOOSE x \in L : TRUE IN
+       {Range(p) \cup T : p \in ShortestUpPaths(par, lf, root), T \in SubTermSetsRec(par, root, L \ {lf})}
+SubTermSets(par, root, leaves) == {leaves \cup T : T \in SubTermSetsRec(par, root, leaves)}
 
 SubPar(par, T) == [t \in T |-> par[t] \cap T]
 
